@@ -42,7 +42,26 @@ def bodyOf (tok : String) : Option Bytes :=
     match ((tok.drop 1).toString.splitOn ".").map String.toNat? with
     | [some len, some seed] => some (randBody len (seed % 2147483648) [])
     | _ => none
+  else if tok.startsWith "k" then
+    -- chunked framing of r<len>.<seed>: the model only needs the decoded body
+    match ((tok.drop 1).toString.splitOn ".").map String.toNat? with
+    | [some len, some seed, some _, some _] => some (randBody len (seed % 2147483648) [])
+    | _ => none
   else none
+
+/-- length of the raw client byte stream (gw ops) -/
+def rawLenOf (tok : String) (body : Bytes) : Nat :=
+  if tok.startsWith "k" then
+    match ((tok.drop 1).toString.splitOn ".").map String.toNat? with
+    | [_, _, _, some n] => n
+    | _ => 0
+  else body.length
+
+/-- gw ops: are all client bytes readable at the first gw_handle_subrequest() call? -/
+def firstComplete (sched : String) (rawLen : Nat) : Bool :=
+  match (sched.splitOn ",").filter (fun t => t.startsWith "c" || t.startsWith "w") with
+  | [] => true
+  | t :: _ => if t.startsWith "c" then ((t.drop 1).toString.toNat?.getD 0) ≥ rawLen else rawLen = 0
 
 structure Parsed where
   method : Bytes
@@ -95,7 +114,9 @@ def runSched {σ : Type} (arrive : σ → Bytes → σ) (complete : σ → σ) :
   | .complete :: rest, body, st => runSched arrive complete rest body (complete st)
   | .fixed _ :: rest, body, st => runSched arrive complete rest body st     -- (only meaningful first)
 
-def caseLine (op : String) (t : List String) (ptoks : List String) : String :=
+def caseLine (op0 : String) (t : List String) (ptoks : List String) : String :=
+  let isGw := op0.startsWith "g"
+  let op := if isGw then (op0.drop 1).toString else op0
   match t with
   | [po, fl, ext, docroot, strip, basedir, pinfoK, srvtok, aux, sname, raddr, rport, tag, renv, px,
      _head, body, sched] =>
@@ -103,7 +124,7 @@ def caseLine (op : String) (t : List String) (ptoks : List String) : String :=
           ofHex srvtok, optHex sname, ofHex raddr, rport.toNat?, optHex tag, kvList renv with
     | some po, some fl, some ext, some docroot, some strip, some basedir, some pinfoK,
       some srvtok, some sname, some raddr, some rport, some tag, some renv =>
-      match parseParsed ptoks, aux.splitOn ".", bodyOf body, parseSched sched with
+      match parseParsed ptoks, aux.splitOn ".", bodyOf body, (if isGw then some [] else parseSched sched) with
       | some (.error e), _, _, _ => e
       | some (.ok p), [fam, wild, colon], some bodyBytes, some steps =>
         let echo := echoParsed ptoks ++ " | "
@@ -143,6 +164,15 @@ def caseLine (op : String) (t : List String) (ptoks : List String) : String :=
           if op = "cgi" then
             let env := cgiEnv {} (mkReq path1 pinfo1 p.headers)
             echo ++ "cgi " ++ toString env.length ++ " " ++ toHex (envpEncode env)
+          else if op = "cgibody" then
+            -- arrival amounts; a first "c<n>" fixes reqbody_length
+            let (bodyLen, amounts) : Int × List Nat :=
+              match steps with
+              | .fixed n :: rest => (((bodyBytes.take n).length : Int), n :: rest.filterMap fun s => match s with | .arrive k => some k | _ => none)
+              | other => (p.bodyLen, other.filterMap fun s => match s with | .arrive k => some k | _ => none)
+            let delivered := min (amounts.foldl (· + ·) 0) bodyBytes.length
+            let st := cgiStdin bodyLen [bodyBytes.take delivered]
+            echo ++ "cgibody eof=" ++ (if st.eof then "1" else "0") ++ " pend=0 out=" ++ fastHex st.out
           else
           -- backend selection: gw_check_extension()
           let isProxy := op = "proxy"
@@ -170,6 +200,56 @@ def caseLine (op : String) (t : List String) (ptoks : List String) : String :=
               { authorizer := authorizer, breakScriptFilenameForPhp := hasFlag fl 2,
                 docroot := docroot, stripRequestUri := strip }
             if op = "env" then echo ++ "env " ++ envStr (cgiEnv copts req) ++ " rc=0"
+            else if isGw then
+              -- gw_handle_subrequest(): the backend is started when the body is complete, or at
+              -- once when streaming; CGI-style gateways answer 411 for a streamed chunked body
+              let chunkedReq := p.bodyLen = -1
+              let streaming := hasFlag fl 1024
+              let fc := firstComplete sched (rawLenOf body bodyBytes)
+              let fin (reqlen : Int) (out : Bytes) : String :=
+                echo ++ op0 ++ " rc=2 st=0 gs=" ++ (if reqlen = (out.length : Int) then "4" else "3") ++
+                  " d=" ++ toString (reqlen - (out.length : Int)) ++ " pend=0 rq=0 out=" ++ fastHex out
+              if chunkedReq && streaming && !isProxy && !fc then echo ++ op0 ++ " rc=1 st=411"
+              else
+              let lenAtCreate : Int :=
+                if chunkedReq && streaming && isProxy && !fc then -1 else (bodyBytes.length : Int)
+              let req := { req with bodyLen := lenAtCreate }
+              if op = "fcgi" then
+                match Fcgi.run Extracted.C09.gwResponder upgrade (cgiEnv copts req) lenAtCreate bodyBytes [] with
+                | none => echo ++ op0 ++ " rc=1 st=400"
+                | some st => fin st.reqlen st.out
+              else if isScgi then
+                let env := cgiEnv { docroot := docroot } req
+                let res : Uwsgi.Res :=
+                  if op = "scgi" then .ok (Scgi.createEnv env lenAtCreate bodyBytes)
+                  else Uwsgi.createEnv env lenAtCreate bodyBytes
+                match res with
+                | .status c => echo ++ op0 ++ " rc=1 st=" ++ toString c
+                | .ok st => let st2 := st.moveAll; fin st2.reqlen st2.out
+              else
+                match px.splitOn "." with
+                | fwd :: rh =>
+                  let rhost : Option Bytes := match rh with
+                    | [h] => (optHex h).getD none
+                    | _ => none
+                  let cfg : Proxy.Cfg :=
+                    { forceHttp10 := hasFlag fl 2048, replaceHost := rhost, forwarded := fwd.toNat?.getD 0,
+                      authorizer := authorizer, streaming := streaming }
+                  let preq : Proxy.Req :=
+                    { method := p.method,
+                      isGetOrHead := p.method = ofString "GET" || p.method = ofString "HEAD",
+                      target := tg.target, h2ConnectExt := h2ext, version := version, host := p.host,
+                      bodyLen := lenAtCreate, scheme := scheme, isSsl := hasFlag fl 16, remoteAddr := raddr,
+                      remoteUser := (renv.find? fun (k, v) => eqIcase k (ofString "REMOTE_USER") && !v.isEmpty).map (·.2),
+                      headers := hs2 }
+                  match Proxy.createEnv cfg preq bodyBytes with
+                  | .status c => echo ++ op0 ++ " rc=1 st=" ++ toString c
+                  | .ok st chunked =>
+                    let st1 := Proxy.complete chunked st
+                    let st2 := if st1.pending.isEmpty then st1
+                               else if chunked then Proxy.stdinAppend st1 else st1.moveAll
+                    fin st2.reqlen st2.out
+                | _ => "bad-op"
             else
             -- body schedule: first entry is queued when create_env runs
             let (seg0, steps1, body1, bodyLen) : Bytes × List Step × Bytes × Int :=
